@@ -1400,10 +1400,8 @@ func (c *Ctx) checkBtreeLookup(rel string) {
 			}
 			r := lf(search.Res)
 			facts := t.factsBefore(len(t.Events))
-			pos := hasFact(facts, func(f Fact) bool {
-				z, isz := f.Y.intConst()
-				return f.X.Key() == search.Res.Key() && isz && z == 0 && f.Op == token.GTR
-			})
+			// r > 0 in any spelling (sort.Search never returns a negative position, so r != 0 says the same)
+			pos, _ := factsSign(facts, r)
 			found, isB := t.Ret[1].boolConst()
 			if !isB {
 				good, why = false, "found is not decided"
@@ -1425,7 +1423,15 @@ func (c *Ctx) checkBtreeLookup(rel string) {
 					good, why = false, "found is reported without `r > 0 && !s[r-1].Less(item)`, or the index returned is not r-1"
 				}
 			} else {
-				if !lf(t.Ret[0]).equal(r) {
+				sameIdx := lf(t.Ret[0]).equal(r)
+				if k, isC := t.Ret[0].intConst(); !sameIdx && isC {
+					// `if r == 0 { return 0, false }`: the constant the path established for r
+					sameIdx = hasFact(facts, func(f Fact) bool {
+						z, isz := f.Y.intConst()
+						return f.X.Key() == search.Res.Key() && isz && z == k && f.Op == token.EQL
+					})
+				}
+				if !sameIdx {
 					good, why = false, "the insertion index returned on a miss is not sort.Search's result"
 				}
 				if pos && !(probeOK && probeKnown && probeVal) {
@@ -1508,7 +1514,7 @@ func (c *Ctx) checkBtreeLookup(rel string) {
 	}
 	// ---- min / max
 	for _, m := range []string{"min", "max"} {
-		fn := c.mustFn(rel, m)
+		fn := c.fnOrSuccessor(rel, m, c.field(rel, "node", "children"), c.field(rel, "node", "items"))
 		if fn == nil {
 			continue
 		}
@@ -1549,6 +1555,11 @@ func (c *Ctx) checkBtreeLookup(rel string) {
 		if fn == nil {
 			return
 		}
+		if callee == "min" || callee == "max" {
+			if sf := c.fnOrSuccessor(rel, callee, c.field(rel, "node", "children"), c.field(rel, "node", "items")); sf != nil {
+				callee = sf.Name()
+			}
+		}
 		ts, _ := c.Trace(fn, cfg)
 		good, n := true, 0
 		for _, t := range ts {
@@ -1557,14 +1568,22 @@ func (c *Ctx) checkBtreeLookup(rel string) {
 			}
 			n++
 			var call *Event
+			expanded := false
 			for _, e := range t.Events {
 				if e.Kind == EvCall && e.Callee != nil && e.Callee.Name() == callee {
 					call = e
+				}
+				// the node-level function may have been expanded into the path (a function introduced since)
+				if e.Kind == EvEnter && e.Callee != nil && e.Callee.Name() == callee && len(e.Args) > 0 && strings.Contains(e.Args[0].Key(), ".root") {
+					expanded = true
 				}
 				// Has may also go to the node-level get on the root itself instead of through the tree's Get
 				if name == "Has" && e.Kind == EvCall && e.Callee != nil && e.Callee.Name() == "get" && len(e.Args) > 0 && strings.Contains(e.Args[0].Key(), ".root") {
 					call = e
 				}
+			}
+			if call == nil && expanded {
+				continue
 			}
 			if call == nil {
 				// allowed only for the empty tree
